@@ -25,4 +25,5 @@ void Ifs_seekg_end(Ifs* f, int64_t off, int dir)
   __CPROVER_ensures(f->pos == (f->fail ? OLD(f->pos) : f->len));
 void Ifs_clear(Ifs* f) __CPROVER_requires(IFS_OK(f)) __CPROVER_assigns(f->fail) __CPROVER_ensures(!f->fail);
 bool Ifs_ok(Ifs* f) __CPROVER_requires(IFS_OK(f)) __CPROVER_assigns() __CPROVER_ensures(__CPROVER_return_value == !f->fail);
+typedef struct FSlice { uint64_t start; uint64_t len; } FSlice;     /* a FileSliceReader: the file bytes [start, start+len) */
 #endif
